@@ -113,7 +113,9 @@ Spec == Init /\ [][Next]_vars
 
 ---------------------------------------------------------------------------
 Viol == TxnViol(inp, outs)
-C13_Txn == LET v == Viol IN IF v = {} THEN TRUE ELSE PrintT(<<"MODELVIOL", v>>) /\ FALSE
+(* the predicates are monotone in the history (a violation of a prefix stays one), every behaviour
+   can be completed within the bounds: judging the complete behaviours judges all prefixes *)
+C13_Txn == done => LET v == Viol IN IF v = {} THEN TRUE ELSE PrintT(<<"MODELVIOL", v>>) /\ FALSE
 C13_TxnQuiet == Viol = {}
 
 EmitReplay == done => PrintT(<<"REPLAY", ToJson([kind |-> "txn", p |-> [none |-> 0],
